@@ -54,6 +54,7 @@ class Recorder:
         self.option_domains = {}  # "Owner.func(param)" -> values its annotation enumerates
         self.states = set()  # abstract state hashes (history properties)
         self.transitions = set()
+        self.aborted = []  # driver pieces given up because a set-up step (not a judged call) failed
 
     # -- reporting API used by monitors and drivers --------------------
     def held(self, monitor, sig=None, cls=None, sample=None):
@@ -134,6 +135,8 @@ class Recorder:
             "option_domains": dict(self.option_domains),
             "states": sorted(self.states),
             "transitions": sorted(self.transitions),
+            "aborted_pieces": self.aborted[:20],
+            "aborted_piece_count": len(self.aborted),
         }
 
 
